@@ -71,7 +71,14 @@ class C03(Prop):
                 if rng.random() < 0.2 and k < n:
                     a2 = [rng.randrange(-8000, 8000) for _ in range(320 * 6)]
                     prev, _, _ = demodlib.transmission(ctx, mod, "N0CALL", "", 3, a2)
-                    pre = prev[:rng.randrange(2000, len(prev) + 1)] + [0] * rng.choice([0, 480, 9600])
+                    pre = (prev if rng.random() < 0.5 else prev[:rng.randrange(2000, len(prev) + 1)]) + [0] * rng.choice([0, 480, 9600])
+                n_pre = 0
+                if pre:
+                    # how many callbacks does the earlier transmission alone produce? (the receiver is causal: everything delivered beyond
+                    # that count in the joint run was delivered after the new transmission began, so an LSF there must be the new one)
+                    _, rep_pre, rc_pre, _ = demodlib.run_rx(ctx, demod, p, pre)
+                    if rc_pre == 0:
+                        n_pre = len(demodlib.parse_frames(rep_pre)[1])
                 ln, rep, rc, err = demodlib.run_rx(ctx, demod, p, pre + tx)
                 key = (src, dst, can, nfr, tuple(sorted(p.items())), len(pre))
                 if rc != 0:
@@ -90,10 +97,10 @@ class C03(Prop):
                 ctx.stat("rx:frames-checked-after-steady", len(sent) - res["steady_frame"])
                 # any LSF reported during this transmission equals the transmitted one
                 started = False
-                for f in frames:
+                for i_f, f in enumerate(frames):
                     if f[0] == "S" and tuple(f[2]) in {tuple(x) for x in sent[:3]}:
                         started = True
-                    if f[0] == "L" and (started or not pre) and f[1] != lsf:
+                    if f[0] == "L" and (started or not pre or i_f >= n_pre) and f[1] != lsf:
                         res["problems"].append(f"link setup frame reported differs from the transmitted one: {f[1]} / {lsf}")
                         break
                 if h and (h[0] > 9 or h[1] >= 368):
